@@ -53,6 +53,12 @@ MsgCovered(d, self, m) ==
        /\ (m.type = "RequestVoteResp" /\ ~m.reject /\ d.term = m.term) => d.vote = m.to
        /\ (m.type = "ReplicateResp" /\ ~m.reject) => LastIdx(d) >= m.logindex
 
+\* a replica hands entry i to the user state machine (and so may report a proposal Completed)
+\* only when it has made the entry durable itself: engine.go applies the committed entries of an
+\* update that still has entries to save after SaveRaftState (FastApply is only used when the
+\* committed entries were saved by an earlier update)
+ApplyCovered(d, i) == LastIdx(d) >= i
+
 \* ---------------------------------------------------------------- what was told to the world
 WInit == [maxterm |-> 0, voteterm |-> 0, votewho |-> 0, acked |-> 0]
 
